@@ -234,6 +234,10 @@ fn solo(v: &Value) -> Result<CaseReport, String> {
     run_solo(v, report)
 }
 
+fn fuzz_extra(ctx: &Ctx, ev: &mut Value) -> Option<Violation> {
+    crate::fuzzrun::campaign(ctx, ev, "C05", "fz_read", false, solo)
+}
+
 pub fn def() -> PropDef {
     PropDef {
         id: "C05",
@@ -245,7 +249,7 @@ pub fn def() -> PropDef {
         worker,
         solo,
         hang_cpu_s: 20.0,
-        extra: None,
+        extra: Some(fuzz_extra),
         confirm_known: false,
     }
 }
